@@ -81,15 +81,15 @@ Proof.
       * replace (Z.of_N real <? 1016) with false by lia. cbn zeta. rewrite Z.mod_small by lia. reflexivity.
 Qed.
 
-(* ---- StatusCode.Bytes, all 65536 values ---- *)
+(* ---- StatusCode.Bytes: the same shifts and truncations, term for term (no enumeration: coqchk re-checks this file
+   without the VM) ---- *)
 Lemma gen_status_bytes_is c : (c < 65536)%N -> gf_internal_StatusCode_Bytes (Z.of_N c) = map Z.of_N (status_bytes c).
 Proof.
-  intro H.
-  assert (F : forall b, (b < 65536)%N ->
-              (fun c => if list_eq_dec Z.eq_dec (gf_internal_StatusCode_Bytes (Z.of_N c)) (map Z.of_N (status_bytes c)) then true else false) b = true).
-  { apply range_forall. vm_compute. reflexivity. }
-  specialize (F c H). cbv beta in F.
-  destruct (list_eq_dec Z.eq_dec (gf_internal_StatusCode_Bytes (Z.of_N c)) (map Z.of_N (status_bytes c))); [assumption|discriminate].
+  intros _. unfold gf_internal_StatusCode_Bytes, status_bytes.
+  replace (Z.of_N c =? 0) with (c =? 0)%N by (destruct (N.eqb_spec c 0), (Z.eqb_spec (Z.of_N c) 0); lia).
+  destruct (c =? 0)%N; [reflexivity|]. cbn [map].
+  rewrite !N.shiftr_div_pow2, N.shiftl_mul_pow2, !Z.shiftr_div_pow2, Z.shiftl_mul_pow2 by lia.
+  rewrite !N2Z.inj_mod, !N2Z.inj_div, N2Z.inj_mod, N2Z.inj_mul, !N2Z.inj_pow. reflexivity.
 Qed.
 
 Lemma gen_Uint16_is c : (c < 65536)%N -> gf_internal_StatusCode_Uint16 (Z.of_N c) = Z.of_N c.
@@ -375,13 +375,33 @@ Proof.
   rewrite Nat2Z.inj_pow. reflexivity.
 Qed.
 
-(* ToBinaryNumber: the model's to_binary_number, for every request up to 65536 shards / pool entries *)
+(* ToBinaryNumber: the model's to_binary_number.  Both are fuelled doubling loops (200 rounds generated, 64 in the
+   model); with the same fuel they agree step by step, and 64 rounds already suffice for every n <= 2^64. *)
+Lemma tb_loop_same_fuel n : forall f x,
+  gf_loop f (fun st => st <? Z.of_N n) (fun st => st * 2) (Z.of_N x) = Z.of_N (to_binary_from f x n).
+Proof.
+  induction f as [|f IH]; intro x; cbn [gf_loop to_binary_from]; [reflexivity|].
+  replace (Z.of_N x <? Z.of_N n) with (x <? n)%N by (destruct (N.ltb_spec x n), (Z.ltb_spec (Z.of_N x) (Z.of_N n)); lia).
+  destruct (x <? n)%N; [|reflexivity].
+  replace (Z.of_N x * 2) with (Z.of_N (2 * x)) by lia. apply IH.
+Qed.
+
+Lemma tb_fuel_enough n : forall f k x, (n <= x * 2 ^ N.of_nat f)%N -> to_binary_from (f + k) x n = to_binary_from f x n.
+Proof.
+  induction f as [|f IH]; intros k x H.
+  - cbn [Nat.add to_binary_from]. destruct k as [|k]; cbn [to_binary_from]; [reflexivity|].
+    replace (x <? n)%N with false; [reflexivity|]. symmetry. apply N.ltb_ge. cbn in H. lia.
+  - cbn [Nat.add to_binary_from]. destruct (x <? n)%N; [|reflexivity]. apply IH.
+    replace (N.of_nat (S f)) with (N.succ (N.of_nat f)) in H by lia. rewrite N.pow_succ_r' in H. lia.
+Qed.
+
 Lemma gen_ToBinaryNumber_is n : (n <= 65536)%N -> gf_internal_ToBinaryNumber (Z.of_N n) = Z.of_N (to_binary_number n).
 Proof.
-  intro H. apply Z.eqb_eq.
-  assert (F : forall b, (b < 65537)%N -> (fun b => gf_internal_ToBinaryNumber (Z.of_N b) =? Z.of_N (to_binary_number b)) b = true)
-    by (apply range_forall; vm_compute; reflexivity).
-  apply (F n). lia.
+  intro H. unfold gf_internal_ToBinaryNumber, to_binary_number. cbv zeta.
+  change 1 with (Z.of_N 1).
+  rewrite (tb_loop_same_fuel n 200 1). apply (f_equal Z.of_N).
+  change 200%nat with (64 + 136)%nat. apply tb_fuel_enough.
+  assert (2 ^ 16 <= 2 ^ N.of_nat 64)%N by (apply N.pow_le_mono_r; lia). change (2 ^ 16)%N with 65536%N in *. lia.
 Qed.
 
 (* ---- GenerateHeader: the first header byte (opcode, FIN = 128, RSV1 = 64) ---- *)
